@@ -82,6 +82,16 @@ struct DeferredPlaced
   int a{0};
 };
 
+// user type encoded member by member with the documented helper functions (compute_total_encoded_size / encode_members /
+// decode_members): a cached-length member (char const*) followed by further members, so that the size cache index matters
+struct Memberwise
+{
+  std::string name;
+  char const* note{nullptr};
+  std::string tail;
+  int id{0};
+};
+
 // direct-format user type (documented opt-in: formatted at the call site) — positive control
 struct Direct
 {
@@ -107,6 +117,37 @@ struct fmtquill::formatter<qv::Direct>
 {
   constexpr auto parse(format_parse_context& ctx) { return ctx.begin(); }
   auto format(qv::Direct const& v, format_context& ctx) const { return fmtquill::format_to(ctx.out(), "X({})", v.a); }
+};
+template <>
+struct fmtquill::formatter<qv::Memberwise>
+{
+  constexpr auto parse(format_parse_context& ctx) { return ctx.begin(); }
+  auto format(qv::Memberwise const& v, format_context& ctx) const
+  {
+    return fmtquill::format_to(ctx.out(), "M({},{},{},{})", v.name, v.note ? v.note : "", v.tail, v.id);
+  }
+};
+template <>
+struct quill::Codec<qv::Memberwise>
+{
+  static size_t compute_encoded_size(quill::detail::SizeCacheVector& cache, qv::Memberwise const& v) noexcept
+  {
+    return quill::compute_total_encoded_size(cache, v.name, v.note, v.tail, v.id);
+  }
+  static void encode(std::byte*& buffer, quill::detail::SizeCacheVector const& cache, uint32_t& cache_index, qv::Memberwise const& v) noexcept
+  {
+    quill::encode_members(buffer, cache, cache_index, v.name, v.note, v.tail, v.id);
+  }
+  static qv::Memberwise decode_arg(std::byte*& buffer)
+  {
+    qv::Memberwise v;
+    quill::decode_members(buffer, v, v.name, v.note, v.tail, v.id);
+    return v;
+  }
+  static void decode_and_store_arg(std::byte*& buffer, quill::DynamicFormatArgStore* args_store)
+  {
+    args_store->push_back(decode_arg(buffer));
+  }
 };
 template <>
 struct quill::Codec<qv::Deferred> : quill::DeferredFormatCodec<qv::Deferred>
@@ -187,6 +228,13 @@ void hot_deferred(quill::LoggerImpl<FO>* l, Deferred const& d, DeferredPlaced co
   LOG_INFO(l, "{}", vd);
 }
 
+template <typename FO>
+void hot_memberwise(quill::LoggerImpl<FO>* l, Memberwise const& m, std::string const& s, std::vector<Memberwise> const& vm)
+{
+  LOG_INFO(l, "{} {}", m, s);
+  LOG_INFO(l, "{}", vm);
+}
+
 // ---- positive controls: must be reported when their documented exclusion is ignored
 template <typename FO>
 void control_direct(quill::LoggerImpl<FO>* l, Direct const& x)
@@ -226,6 +274,7 @@ void cold_preallocate()
                                  std::pair<std::optional<std::string>, std::vector<int>> const&, std::chrono::seconds,                        \
                                  std::chrono::system_clock::time_point);                                                                      \
   template void hot_deferred<FO>(quill::LoggerImpl<FO>*, Deferred const&, DeferredPlaced const&, std::vector<Deferred> const&);               \
+  template void hot_memberwise<FO>(quill::LoggerImpl<FO>*, Memberwise const&, std::string const&, std::vector<Memberwise> const&);            \
   template void control_direct<FO>(quill::LoggerImpl<FO>*, Direct const&);                                                                    \
   template void control_path<FO>(quill::LoggerImpl<FO>*, std::filesystem::path const&);                                                       \
   template void cold_preallocate<FO>();
